@@ -112,6 +112,19 @@ pub fn draw_foreign(rng: &mut Rng, big: bool) -> ForeignSpec {
         let gap = if dense { rng.below(3) } else { rng.log_range(1, 1 << 24) - 1 };
         id += u64::from(run) + gap;
     }
+    // a content above 1 MiB is referenced by at most two single-tile entries (re-writing an
+    // archive under a one-byte read policy stays within the per-call operation budget)
+    let mut big_refs = 0;
+    for e in entries.iter_mut() {
+        if contents[e.c as usize % contents.len()].len > (1 << 20) {
+            big_refs += 1;
+            if big_refs > 2 {
+                e.c = 0;
+            } else {
+                e.run = 1;
+            }
+        }
+    }
     let layout = draw_layout(rng, big);
     let mut stored = [0i32; 6];
     for (i, s) in stored.iter_mut().enumerate() {
@@ -284,6 +297,9 @@ impl ImageSrc {
         match self {
             ImageSrc::Foreign(f) => materialise_foreign(f).map_err(|e| panic_harness(&e)),
             ImageSrc::Written { a, face, w, scramble } => {
+                let mut a = a.clone();
+                a.materialise();
+                let a = &a;
                 let image = write_archive(a, *face, &Sched { w: w.clone(), r: Policy::plain() }, *scramble, ctx, prop)?;
                 let header = spec::parse_header(&image).map_err(|e| Violation::new(format!("{prop}:written-unparseable"), e))?;
                 let walk = spec::walk(&image, &header, spec::Limits::VALID).map_err(|e| Violation::new(format!("{prop}:written-unparseable"), format!("{e:?}")))?;
